@@ -104,7 +104,8 @@ THEORY = [
     ('tel_two_terms', ':- not &tel { a, b }.', 'reject'), ('tel_two_elements', ':- not &tel { a; b }.', 'accept'), ('tel_cond', ':- not &tel { a : q }.', 'accept'),
     ('tel_head', '&tel { a }.', 'accept'), ('tel_head_body', '&tel { a | > b } :- q.', 'accept'),
     ('tel_head_past_op', '&tel { < a }.', 'reject'), ('tel_head_since', '&tel { a <? b }.', 'reject'), ('tel_head_impl', '&tel { a -> b }.', 'reject'), ('tel_head_eqv', '&tel { a <> b }.', 'reject'),
-    ('tel_head_two_terms', '&tel { a, b }.', 'reject'), ('tel_head_cond', '&tel { a : q }.', 'reject'),
+    ('tel_head_two_terms', '&tel { a, b }.', 'reject'), ('tel_head_prime_trail', "&tel { a' }.", 'reject'), ('tel_head_prime_lead', "&tel { 'a }.", 'reject'), ('tel_head_prime_nested', "&tel { b | > a' }.", 'reject'),
+    ('tel_head_inner_prime', "&tel { a'b }.", 'accept'), ('del_two_terms', ':- not &del { a .>? b, b }.', 'reject'), ('del_two_elements', ':- not &del { a .>? b ; &true .>* b }.', 'accept'), ('del_cond', ':- not &del { a .>? b : q }.', 'accept'), ('tel_head_cond', '&tel { a : q }.', 'reject'),
     ('tel_body_prime_lead', ":- not &tel { 'a }.", 'reject-solve'), ('tel_body_prime_trail', ":- not &tel { a' }.", 'reject-solve'), ('tel_body_inner_prime', ":- not &tel { a'b }.", 'accept-solve'),
 ]
 
